@@ -769,10 +769,17 @@ def rule_r7(chk, prog):
     m = prog.mod('checker')
     f = m.func('execute')
     popens = [c for c in calls_in(f) if (call_name(c) or '').endswith(
-        'Popen')]
+        'Popen') or (call_name(c) or '') in (
+            'subprocess.run', 'subprocess.check_output', 'subprocess.call',
+            'subprocess.check_call')]
     n = 0
     for c in popens:
         kws = {k.arg: k.value for k in c.keywords if k.arg}
+        if isinstance(kws.get('capture_output'), ast.Constant) and \
+                kws['capture_output'].value is True:
+            pipe = ast.parse('subprocess.PIPE', mode='eval').body
+            kws.setdefault('stdout', pipe)
+            kws.setdefault('stderr', pipe)
         # keyword dictionaries passed with ** (one level)
         for k in c.keywords:
             if k.arg is None and isinstance(k.value, ast.Name):
